@@ -5,7 +5,7 @@ import Sif.Proofs.C13Examples
   Property theorems only (helper lemmas live in Sif/Proofs/C13*.lean).
 
   The model (Sif/Model/Margin*.lean) follows /repo's working tree, i.e. the *repaired* code
-  (`Fixes.repaired`: fixes/F14.diff, fixes/F14b.diff, fixes/F15.diff applied).  The theorems are
+  (`Fixes.repaired`: fixes/F14.diff, fixes/F14b.diff, fixes/F14c.diff applied).  The theorems are
   about that code; `pinned_*` are kernel-checked witnesses that each repair is needed.
 
   Quantifiers: every state satisfying the two decidable invariants `WF` (store well-formedness) and
@@ -204,10 +204,10 @@ theorem pinned_F14b_violates :
     (match beginBlocker Fixes.repaired Ex.s2fc Ex.rates with | .ok s' => MarginOK s' | .error _ => false) = true := by
   decide +kernel
 
-/-- F15: the pinned Open accepts a position between two non-native assets; the state is then no
+/-- F14c: the pinned Open accepts a position between two non-native assets; the state is then no
     longer well-formed, and the BeginBlocker (even with F14/F14b repaired) processes that position
     against both pools and breaks MarginOK. -/
-theorem pinned_F15_violates :
+theorem pinned_F14c_violates :
     WF (deliver Fixes.pinned Ex.s0two (.open Ex.openCross)) = false ∧
     (deliver Fixes.repaired Ex.s0two (.open Ex.openCross)).mtps.length = 0 ∧
     (let s := deliver Fixes.pinned (deliver Fixes.pinned Ex.s0two (.open Ex.openCross)) (.open { Ex.openMsg0 with borrow := "ceth" })
